@@ -3,6 +3,7 @@
 From Coq Require Import List NArith ZArith.
 From HS Require Import Quorum.QuorumModel Protocol.Core Protocol.Chained Protocol.ChainedExec Protocol.ChainedExecProofs.
 From HS Require Import Protocol.Fast Protocol.FastExec Protocol.FastExecProofs.
+From HS Require Protocol.Refine Protocol.Bridge Cert.CertModel Crypto.Symbolic Base.Prelude.
 Import ListNotations.
 Open Scope N_scope.
 
@@ -87,6 +88,80 @@ Proof.
 Qed.
 Print Assumptions C01_direct_commits_ordered.
 
+(* ---- local decisions refine the abstract step (Protocol/Refine.v, Protocol/Bridge.v) ----
+   The abstract vote step is guarded by global notions; the code decides on the replica's own
+   store with the functions the C04 correspondence check runs against consensus/rules/*.  When
+   the code-level chained VoteRule ([Rules.RulesModel.chained_vote]) accepts a proposal on a
+   store that is a partial view of the global universe, after the checks of the proposal
+   handler (QC verified) and Voter.Verify (view, parent, QC block), the abstract vote step is
+   enabled and the lock computed by the code-level CommitRule is the lock of the abstract
+   successor state.  [absb] projects a code-level block to (hash, parent, view, QC hash). *)
+Theorem C01_code_level_vote_refines_abstract_step :
+  forall replicas byz,
+    config_ok replicas byz (Refine.absb Refine.R.genesis) = true ->
+    forall s r f lk v p qb,
+      let genesis := Refine.absb Refine.R.genesis in
+      let blk := Refine.R.p_block p in
+      Chained.reach RChained (member replicas) (honest byz) (qsize replicas) genesis s ->
+      honest byz r = true ->
+      Refine.view_of f (Chained.U s) ->
+      Chained.U s (Refine.R.b_hash blk) = Some (Refine.absb blk) ->
+      lock (Chained.loc genesis s r) = Refine.absb lk ->
+      Refine.R.get f (Refine.R.qc_hash (Refine.R.b_qc blk)) = Some qb ->
+      Chained.certified (member replicas) (qsize replicas) genesis s (Refine.R.qc_hash (Refine.R.b_qc blk)) ->
+      Refine.R.b_parent blk = Refine.R.qc_hash (Refine.R.b_qc blk) ->
+      Refine.R.b_view qb < Refine.R.b_view blk ->
+      lastVoted (Chained.loc genesis s r) < Refine.R.b_view blk ->
+      Refine.R.chained_vote f lk v p = true ->
+      Chained.step RChained (member replicas) (honest byz) (qsize replicas) genesis s
+                   (Chained.cast_vote genesis s r (Refine.absb blk)) /\
+      lock (Chained.loc genesis (Chained.cast_vote genesis s r (Refine.absb blk)) r)
+        = Refine.absb (fst (Refine.R.chained_commit f lk blk)).
+Proof.
+  intros replicas byz Hc s r f lk v p qb.
+  exact (Refine.chained_replica_vote_refines (member replicas) (honest byz) (qsize replicas)
+           (quorum_inter_inst replicas byz _ Hc) (quorum_has_honest_inst replicas byz _ Hc)
+           s r f lk v p qb).
+Qed.
+Print Assumptions C01_code_level_vote_refines_abstract_step.
+
+(* a commit decision of the code-level chained CommitRule satisfies the abstract commit rule *)
+Theorem C01_code_level_commit_refines_abstract_rule :
+  forall replicas byz,
+    config_ok replicas byz (Refine.absb Refine.R.genesis) = true ->
+    forall s f lk blk b3,
+      let genesis := Refine.absb Refine.R.genesis in
+      Chained.reach RChained (member replicas) (honest byz) (qsize replicas) genesis s ->
+      Refine.view_of f (Chained.U s) ->
+      Chained.certified (member replicas) (qsize replicas) genesis s (Refine.R.qc_hash (Refine.R.b_qc blk)) ->
+      snd (Refine.R.chained_commit f lk blk) = Some b3 ->
+      (forall x, In x f -> Refine.small x) ->
+      exists b1 b2,
+        Refine.R.get f (Refine.R.qc_hash (Refine.R.b_qc blk)) = Some b1 /\
+        Chained.commit_rule RChained (member replicas) (qsize replicas) genesis s
+                            (Refine.absb b3) (Refine.absb b2) (Refine.absb b1).
+Proof.
+  intros replicas byz Hc s f lk blk b3.
+  exact (Refine.chained_replica_commit_refines (member replicas) (honest byz) (qsize replicas)
+           s f lk blk b3).
+Qed.
+Print Assumptions C01_code_level_commit_refines_abstract_rule.
+
+(* "certified" is what VerifyQuorumCert establishes (C02's model) under signature
+   unforgeability: every genuine vote signature of a member inside the certificate is a vote of
+   the abstract state, and the local store is content addressed. *)
+Theorem C01_verified_qc_is_certified :
+  forall (c : CertModel.cfg) (st : CertModel.store) (q : CertModel.qc) genesis (s : Chained.state),
+    CertModel.verify_qc c st q = Prelude.Ok tt ->
+    (forall h b, st h = Some b -> CertModel.bi_hash b = h) ->
+    (forall sg i h, CertModel.qc_sig q = Some sg -> Symbolic.genuine sg i (Symbolic.MBlock h) ->
+                    In i (CertModel.c_replicas c) -> Chained.voted s i h) ->
+    CertModel.c_genesis c = b_hash genesis ->
+    Chained.certified (member (CertModel.c_replicas c)) (qsize (CertModel.c_replicas c)) genesis s
+                      (CertModel.qc_hash q).
+Proof. exact Bridge.verified_qc_is_certified. Qed.
+Print Assumptions C01_verified_qc_is_certified.
+
 (* ---- non-vacuity: concrete accepted histories with commits, n = 4, replica 4 Byzantine ---- *)
 Definition g0 : block := {| b_hash := 1; b_parent := 0; b_view := 0; b_qc := 0 |}.
 Definition mk (h p v : N) : block := {| b_hash := h; b_parent := p; b_view := v; b_qc := p |}.
@@ -128,3 +203,29 @@ Example C01_fdemo_accepted :
          ([FAddBlock (mk 2 1 1)] ++ fvotes3 2 None ++ [FAddBlock (mk 3 2 2); FVote 1 3 None; FStop 1 2; FTimeout 1 2 1]) 0) = Some 7%nat /\
   map b_hash (f_log (Fast.loc g0 (fst (frun [1;2;3;4] [4] g0 (Fast.init g0) fdemo 0)) 1)) = [2].
 Proof. vm_compute. repeat split. Qed.
+
+(* the premises of the refinement theorem hold together in a concrete reachable state *)
+Definition rblk : Refine.R.block := Refine.R.mkBlock 2 1 1 (Refine.R.mkQC 1 0).
+Definition rstore : Refine.R.store := [Refine.R.genesis; rblk].
+Definition rs0 : Chained.state := Chained.add_block (Chained.init (Refine.absb Refine.R.genesis)) (Refine.absb rblk).
+Example C01_refinement_premises_satisfiable :
+  let genesis := Refine.absb Refine.R.genesis in
+  config_ok [1;2;3;4] [4] genesis = true /\
+  Chained.reach RChained (member [1;2;3;4]) (honest [4]) (qsize [1;2;3;4]) genesis rs0 /\
+  honest [4] 1 = true /\
+  Refine.view_of rstore (Chained.U rs0) /\
+  Chained.U rs0 2 = Some (Refine.absb rblk) /\
+  lock (Chained.loc genesis rs0 1) = Refine.absb Refine.R.genesis /\
+  Refine.R.get rstore 1 = Some Refine.R.genesis /\
+  Chained.certified (member [1;2;3;4]) (qsize [1;2;3;4]) genesis rs0 1 /\
+  lastVoted (Chained.loc genesis rs0 1) < 1 /\
+  Refine.R.chained_vote rstore Refine.R.genesis 1 (Refine.R.mkProp rblk None) = true.
+Proof.
+  cbv zeta. split; [vm_compute; reflexivity|]. split.
+  { eapply reach_step; [apply reach_init|]. apply step_addblock; [reflexivity|discriminate|discriminate]. }
+  split; [reflexivity|]. split.
+  { intros h b. unfold rstore, Refine.R.get. cbn [find Refine.R.b_hash Refine.R.genesis rblk].
+    destruct (N.eqb_spec 1 h) as [E|_]; [intros [= E2]; subst; reflexivity|].
+    destruct (N.eqb_spec 2 h) as [E|_]; [intros [= E2]; subst; reflexivity|discriminate]. }
+  repeat split; try reflexivity. now left.
+Qed.
